@@ -100,6 +100,12 @@ def one_case(arg):
         env = {"GIT_CONFIG_NOSYSTEM": "0"}
         # local
         local = gen_entries(rng, rng.randint(1, 8) if not cli_safe else rng.randint(4, 24), cli_safe)
+        if cli_safe and rng.random() < 0.5:
+            # a display name that is set and later reset by an empty / value-less `name` entry (also for a built-in group)
+            sub_n = rng.choice(["a", "Team", "My Group", "tags", "branches", "a.b"])
+            local.insert(rng.randint(0, len(local)), ("refgroup", sub_n, "include", "refs/heads"))
+            local.insert(0, ("refgroup", sub_n, "name", rng.choice(["First label", "Site-wide", "x"])))
+            local.append(("refgroup", sub_n, "name", rng.choice(["", None, "", "Final"])))
         if cli_safe and rng.random() < 0.7:
             sub = rng.choice(SUBSECTIONS)
             seq = [("refgroup", sub, "include", "refs/heads"), ("refgroup", sub, "exclude", "refs/heads/feature"),
